@@ -5,7 +5,7 @@ import ast
 from typing import Dict, List, Optional, Set, Tuple
 
 from ..cfg import CFG, Node, explore, walk_node
-from ..model import AnalysisError, FuncInfo, Repo, call_np, dotted, method_call, src, walk_no_nested
+from ..model import AnalysisError, FuncInfo, Repo, call_np, dotted, method_call, np_name, src, walk_no_nested
 from ..report import Ob, bad, note, ok, skip
 from ..scope import full_call_name, local_bindings
 from . import rule
@@ -187,8 +187,8 @@ def pure_b(repo: Repo) -> List[Ob]:
                 a0 = src(x.args[0]) if x.args else ""
                 kw = [k for k in x.keywords if k.arg is None]
                 args_ok = a0 in ("self.dimensions", "self._dimensions") and bool(kw) and src(kw[0].value) == "self.kwargs"
-    (obs.append(ok("PURE-b", g, "getter-rebuilds", ("C15",), g.node, "operator is rebuilt from self.dimensions and self.kwargs on every read")) if good and args_ok else
-     obs.append(bad("PURE-b", g, "getter-rebuilds", ("C15",), g.node,
+    (obs.append(ok("PURE-b", g, "getter-rebuilds", ("C15", "C12"), g.node, "operator is rebuilt from self.dimensions and self.kwargs on every read")) if good and args_ok else
+     obs.append(bad("PURE-b", g, "getter-rebuilds", ("C15", "C12"), g.node,
                     "Operation.operator can return without calling compute_operator(self.dimensions, **self.kwargs) (cached operator of a previous target / other arguments)")))
     return obs
 
@@ -296,7 +296,7 @@ def alias_mut(repo: Repo) -> List[Ob]:
     """no in-place update (augmented assignment, subscript store, out=) of a name that may alias a caller-supplied array"""
     obs: List[Ob] = []
     n_aug = 0
-    for fi in repo.all_functions():
+    for fi in repo.scan_functions():
         m = fi.module.name
         if not m.startswith("photon_weave"):
             continue
@@ -358,10 +358,74 @@ def _binop_kind(e: ast.AST) -> Optional[Tuple[str, ast.AST, ast.AST]]:
             return k, e.left, e.right
     n = call_np(e)
     if n and len(e.args) == 2:
-        k = {"add": "add", "subtract": "sub", "multiply": "mul", "matmul": "matmul", "dot": "matmul", "kron": "kron", "divide": "div", "true_divide": "div"}.get(n)
+        k = _FUNC_KIND.get(n)
+        if k:
+            return k, e.args[0], e.args[1]
+    if isinstance(e, ast.Call) and len(e.args) == 2 and not e.keywords:
+        k = _callable_kind(e.func)
         if k:
             return k, e.args[0], e.args[1]
     return None
+
+
+_FUNC_KIND = {"add": "add", "subtract": "sub", "multiply": "mul", "matmul": "matmul", "dot": "matmul", "kron": "kron", "divide": "div", "true_divide": "div"}
+_OPERATOR_KIND = {"add": "add", "sub": "sub", "mul": "mul", "matmul": "matmul", "truediv": "div"}
+
+
+def _callable_kind(f: ast.AST) -> Optional[str]:
+    """the binary operation a function *reference* stands for: jnp.add, operator.mul, lambda a, b: a @ b"""
+    n = np_name(f)
+    if n in _FUNC_KIND:
+        return _FUNC_KIND[n]
+    d = dotted(f) or ""
+    if d.startswith("operator.") and d.split(".", 1)[1] in _OPERATOR_KIND:
+        return _OPERATOR_KIND[d.split(".", 1)[1]]
+    if isinstance(f, ast.Lambda) and len(f.args.args) == 2:
+        b = _binop_kind(f.body)
+        a0, a1 = f.args.args[0].arg, f.args.args[1].arg
+        if b and src(b[1]) == a0 and src(b[2]) == a1:
+            return b[0]
+    return None
+
+
+def _reduce_fold(body: List[ast.stmt], fname: str, argsname: str) -> Optional[Tuple[str, List[str]]]:
+    """`return reduce(OP, (interpreter(a, …) for a in args[1:]), interpreter(args[0], …))` (names resolved through the arm's
+    own single assignments) -> (kind of OP, problems); reduce is a left fold with the accumulator as the left operand"""
+    env = {x.targets[0].id: x.value for x in body if isinstance(x, ast.Assign) and len(x.targets) == 1 and isinstance(x.targets[0], ast.Name)}
+
+    def res(e):
+        seen = 0
+        while isinstance(e, ast.Name) and e.id in env and seen < 5:
+            e, seen = env[e.id], seen + 1
+        return e
+    rets = [x for x in body if isinstance(x, ast.Return) and x.value is not None]
+    if not rets:
+        return None
+    c = res(rets[-1].value)
+    if not (isinstance(c, ast.Call) and (dotted(c.func) or "").split(".")[-1] == "reduce" and len(c.args) in (2, 3) and not c.keywords):
+        return None
+    kk = _callable_kind(res(c.args[0]))
+    it = res(c.args[1])
+    if kk is None or not isinstance(it, (ast.GeneratorExp, ast.ListComp)) or len(it.generators) != 1 or it.generators[0].ifs:
+        return None
+    g = it.generators[0]
+    problems: List[str] = []
+    ra = _rec_arg(it.elt, fname)
+    if ra is None or src(ra) != src(g.target):
+        problems.append("the folded operands are not interpreter(<element>, …)")
+    whole = src(g.iter) == argsname
+    tail = isinstance(g.iter, ast.Subscript) and src(g.iter.value) == argsname and isinstance(g.iter.slice, ast.Slice) and g.iter.slice.lower is not None \
+        and src(g.iter.slice.lower) == "1" and g.iter.slice.upper is None and g.iter.slice.step is None
+    if len(c.args) == 2:
+        if not whole:
+            problems.append(f"reduce without an initial value iterates `{src(g.iter)}` instead of {argsname}")
+    else:
+        first = _rec_arg(res(c.args[2]), fname)
+        if first is None or src(first) != f"{argsname}[0]":
+            problems.append(f"the fold starts from `{src(res(c.args[2]))[:40]}` instead of interpreter({argsname}[0], …)")
+        if not tail:
+            problems.append(f"the fold iterates `{src(g.iter)}` instead of {argsname}[1:]")
+    return kk, problems
 
 
 @rule("INTERP")
@@ -416,8 +480,16 @@ def interp(repo: Repo) -> List[Ob]:
             # result = interpreter(args[0]); for arg in args[1:]: result = f(result, interpreter(arg))
             init = [s for s in body if isinstance(s, ast.Assign) and _rec_arg(s.value, fname) is not None]
             loops = [s for s in body if isinstance(s, ast.For)]
+            red = _reduce_fold(body, fname, argsname) if not loops else None
+            if red is not None:
+                kk, problems = red
+                if kk != want:
+                    problems = problems + [f"`{cmd}` folds with {kk} instead of {want}"]
+                (obs.append(bad("INTERP", fi, key, P, arm if isinstance(arm, ast.If) else fn, "; ".join(problems))) if problems else
+                 obs.append(ok("INTERP", fi, key, P, arm if isinstance(arm, ast.If) else fn, f"left fold (reduce) of {want} over the arguments in order")))
+                continue
             if not init or not loops:
-                # reduce(...) or other idiom
+                # other idiom
                 obs.append(skip("INTERP", fi, key, P, arm if isinstance(arm, ast.If) else fn, "n-ary fold idiom not recognised"))
                 continue
             acc = src(init[0].targets[0])
